@@ -287,6 +287,13 @@ theorem C26_ChunkLoopTrans (cs : Int) : Atomic (chunkProg cs id (fun f => f)) :=
 theorem C26_LoopSwapTrans : Atomic swapProgWalk1 :=
   C26_atomic_validate_first _ _ (by simp [NoRefuse])
 
+/-- `ChunkLoopTrans` / `LoopSwapTrans` applied directly by a script. -/
+theorem C26_ChunkLoopTrans_direct (o : Opts) : Atomic (chunkTransProg o) :=
+  C26_atomic_validate_first _ _ (by simp [NoRefuse])
+
+theorem C26_LoopSwapTrans_direct : Atomic swapTransProg :=
+  C26_atomic_validate_first _ _ (by simp [NoRefuse])
+
 /-- Every nested `validate` run by `LoopTiling2DTrans.apply` (chunk outer, chunk inner on the tree after the
     first chunk, swap on the tree after both) is implied by `LoopTiling2DTrans.validate`. -/
 theorem C26_LoopTiling2D_nested_validates_implied (o : Opts) (s : St) (hw : WF s.tab)
